@@ -112,25 +112,30 @@ pub fn run(
                 .cloned()
                 .collect_vec();
             let candidate_test_path: &Vec<&EdgeTraversal> = &candidate_path.iter().collect_vec();
-            // replace best candidate if current candidate is sufficiently dissimilar and improves on cost
+            // replace best candidate if current candidate is sufficiently dissimilar to every
+            // accepted path and improves on cost
+            let mut dissimilar = true;
             for test_path in accepted.iter() {
                 let similar = similarity.clone().test_similarity(
                     &test_path.iter().collect_vec(),
                     candidate_test_path,
                     &yens_si,
                 )?;
-                if !similar {
-                    let candidate_cost: Cost =
-                        candidate_test_path.iter().map(|e| e.total_cost()).sum();
-                    match best_candidate {
-                        Some((_, best_cost)) if candidate_cost < best_cost => {
-                            best_candidate = Some((candidate_path.clone(), candidate_cost));
-                        }
-                        None => {
-                            best_candidate = Some((candidate_path.clone(), candidate_cost));
-                        }
-                        Some(_) => {}
+                if similar {
+                    dissimilar = false;
+                    break;
+                }
+            }
+            if dissimilar {
+                let candidate_cost: Cost = candidate_test_path.iter().map(|e| e.total_cost()).sum();
+                match best_candidate {
+                    Some((_, best_cost)) if candidate_cost < best_cost => {
+                        best_candidate = Some((candidate_path.clone(), candidate_cost));
                     }
+                    None => {
+                        best_candidate = Some((candidate_path.clone(), candidate_cost));
+                    }
+                    Some(_) => {}
                 }
             }
         }
